@@ -27,6 +27,12 @@ type TaintCfg struct {
 	// is tainted when its receiver or an argument is. Default: methods on a
 	// tainted receiver and plain calls do NOT carry.
 	CallCarries func(fn *ir.Func, call *ast.CallExpr) bool
+	// ValueTaint tracks derivation of data rather than sharing of memory:
+	// fields/elements of any type (also pure values) read from a tainted value
+	// are tainted. Implies ElemCarries.
+	ValueTaint bool
+	// SkipWrite lets a rule exempt particular assignments from propagating.
+	SkipWrite func(fn *ir.Func, w ir.Write) bool
 }
 
 // Taint is the result of the analysis.
@@ -109,6 +115,9 @@ func (t *Taint) step(fn *ir.Func) {
 		if w.Tok != token.ASSIGN && w.Tok != token.DEFINE {
 			continue
 		}
+		if t.cfg.SkipWrite != nil && t.cfg.SkipWrite(fn, w) {
+			continue
+		}
 		if t.Expr(fn, rhs) {
 			root, path := fn.RootObj(w.LHS)
 			if ir.IsErrorType(fn.TypeOf(w.LHS)) {
@@ -182,18 +191,20 @@ func (t *Taint) Expr(fn *ir.Func, e ast.Expr) bool {
 		if fn.Info().Selections[x].Kind() != types.FieldVal {
 			return false // method value
 		}
-		return t.cfg.ElemCarries && t.Expr(fn, x.X) && carriesRefs(fn.TypeOf(e))
+		return t.cfg.ElemCarries && t.Expr(fn, x.X) && (t.cfg.ValueTaint || carriesRefs(fn.TypeOf(e)))
 	case *ast.IndexExpr:
-		return t.cfg.ElemCarries && t.Expr(fn, x.X) && carriesRefs(fn.TypeOf(e))
+		return t.cfg.ElemCarries && t.Expr(fn, x.X) && (t.cfg.ValueTaint || carriesRefs(fn.TypeOf(e)))
 	case *ast.SliceExpr:
 		return t.Expr(fn, x.X)
 	case *ast.StarExpr:
 		return t.Expr(fn, x.X)
 	case *ast.UnaryExpr:
-		if x.Op == token.AND {
+		if x.Op == token.AND || t.cfg.ValueTaint {
 			return t.Expr(fn, x.X)
 		}
 		return false
+	case *ast.BinaryExpr:
+		return t.cfg.ValueTaint && (t.Expr(fn, x.X) || t.Expr(fn, x.Y))
 	case *ast.TypeAssertExpr:
 		return t.Expr(fn, x.X)
 	case *ast.CompositeLit:
@@ -222,6 +233,14 @@ func (t *Taint) Expr(fn *ir.Func, e ast.Expr) bool {
 					for i, a := range x.Args {
 						if (i == 0 || t.cfg.ElemCarries) && t.Expr(fn, a) {
 							return true
+						}
+					}
+				default:
+					if t.cfg.ValueTaint {
+						for _, a := range x.Args {
+							if t.Expr(fn, a) {
+								return true
+							}
 						}
 					}
 				}
